@@ -317,7 +317,35 @@ mod string_arithmetic {
     number_impl!(bitshift exact_shl as Shl, shl);
     number_impl!(bitshift checked_shr as Shr, shr);
     number_impl!(fpNonzero checked_div as Div, div);
-    number_impl!(fpNonzero checked_rem as Rem, rem);
+    /// `x % y` as an exact operation. The smallest int / bigint modulo -1 is 0, but `checked_rem`
+    /// reports the overflow of the matching quotient (the interpreter's `%` yields 0 as well).
+    trait ExactRem: Sized {
+        fn exact_rem(self, rhs: Self) -> Option<Self>;
+    }
+
+    macro_rules! exact_rem {
+        ($($ty:ty),+) => {
+            $(impl ExactRem for $ty {
+                fn exact_rem(self, rhs: Self) -> Option<Self> {
+                    if rhs == -1 {
+                        Some(0)
+                    } else {
+                        self.checked_rem(rhs)
+                    }
+                }
+            })+
+        };
+    }
+
+    exact_rem!(i32, i128);
+
+    impl ExactRem for u8 {
+        fn exact_rem(self, rhs: Self) -> Option<Self> {
+            self.checked_rem(rhs)
+        }
+    }
+
+    number_impl!(fpNonzero exact_rem as Rem, rem);
     number_impl!(infallible bitand as BitAnd, bitand);
     number_impl!(infallible bitor as BitOr, bitor);
     number_impl!(infallible bitxor as BitXor, bitxor);
